@@ -35,6 +35,8 @@ structure TCfg where
   expRead : Nat → Nat → Int → Int
   refCreate : Nat → Nat → Int → Int
   refUpdate : Nat → Nat → Int → Int
+  refReload : Nat → Nat → Int → Int     -- RefreshAfterReload
+  refFail : Nat → Nat → Int → Int       -- RefreshAfterReloadFailure
 
 abbrev Tbl := List (Nat × TNode)
 
@@ -66,13 +68,21 @@ def calcExpiresAtAfterWrite (c : TCfg) (n : TNode) (old : Option TNode) (now : I
     | some o => if hasExpired o now then c.expCreate n.key n.val cur else c.expUpdate n.key n.val cur
   if d > 0 && cur != d then { n with exp := deadlineAfter now d } else n
 
-/-- calcRefreshableAt with no call in hand (plain writes) -/
-def calcRefreshableAt (c : TCfg) (n : TNode) (old : Option TNode) (now : Int) : TNode :=
+/-- which calculator calcRefreshableAt asks: no call in hand or not a refresh (plain), a refresh call that succeeded
+    (reload), a refresh call that failed (failure) — the last two only when there is a predecessor -/
+inductive RefKind where
+  | plain | reload | failure
+  deriving DecidableEq, Repr
+
+/-- calcRefreshableAt -/
+def calcRefreshableAt (c : TCfg) (n : TNode) (old : Option TNode) (kind : RefKind) (now : Int) : TNode :=
   if !c.withRef then n else
   let cur := durationTo n.ref now
-  let d := match old with
-    | some _ => c.refUpdate n.key n.val cur
-    | none => c.refCreate n.key n.val cur
+  let d := match kind, old with
+    | .reload, some _ => c.refReload n.key n.val cur
+    | .failure, some _ => c.refFail n.key n.val cur
+    | _, some _ => c.refUpdate n.key n.val cur
+    | _, none => c.refCreate n.key n.val cur
   if d > 0 && cur != d then { n with ref := deadlineAfter now d } else n
 
 /-- calcExpiresAtAfterRead + setExpiresAfterRead (the CAS succeeds: nobody else touches the node inside the step) -/
@@ -86,12 +96,16 @@ def calcExpiresAtAfterRead (c : TCfg) (n : TNode) (now : Int) : TNode :=
 
 def getCause (n : TNode) (now : Int) (c : Cause) : Cause := if hasExpired n now then .expiration else c
 
+/-- the predecessor as atomicSet sees it: an expired entry is logically absent -/
+def visiblePrev (old : Option TNode) (now : Int) : Option TNode :=
+  match old with | some o => if hasExpired o now then none else some o | none => none
+
 /-- atomicSet: the node that replaces `old`, and the atomic deletion event for `old` -/
-def atomicSet (c : TCfg) (k v : Nat) (old : Option TNode) (now : Int) : TNode × List Event :=
-  let prev := match old with | some o => if hasExpired o now then none else some o | none => none
+def atomicSet (c : TCfg) (k v : Nat) (old : Option TNode) (now : Int) (kind : RefKind := .plain) : TNode × List Event :=
+  let prev := visiblePrev old now
   let n := newNode c k v prev
   let n := calcExpiresAtAfterWrite c n prev now
-  let n := calcRefreshableAt c n prev now
+  let n := calcRefreshableAt c n prev kind now
   let evs := match old with
     | some o => [{ key := o.key, val := o.val, cause := getCause o now .replacement : Event }]
     | none => []
@@ -142,6 +156,39 @@ def computeStep (c : TCfg) (t : Tbl) (k : Nat) (act : Spec.Act) (now : Int) : Tb
     match old with
     | some o => (unlink t k, .valOk 0 false, [{ key := o.key, val := o.val, cause := getCause o now .invalidation }])
     | none => (t, .valOk 0 false, [])
+
+/-- what a load produced -/
+inductive LoadOut where
+  | ok (v : Nat) | err | notFound
+  deriving DecidableEq, Repr
+
+/-- afterDeleteCall's critical section: `correct` = the call is still the registered one (or a volunteered key's fake
+    call); a not-found outcome of a correct call removes the entry, an error leaves it (a failed REFRESH may move the refresh
+    deadline of the node in place), a value is installed only by a correct call -/
+def finishCall (c : TCfg) (t : Tbl) (k : Nat) (correct isRefresh : Bool) (o : LoadOut) (now : Int) : Tbl × List Event :=
+  let old := lookup t k
+  match o with
+  | .notFound =>
+    if correct then
+      match old with
+      | some x => (unlink t k, [{ key := x.key, val := x.val, cause := getCause x now .invalidation }])
+      | none => (t, [])
+    else (t, [])
+  | .err =>
+    match old with
+    | some x =>
+      -- calcRefreshableAt(oldNode, oldNode, cl, now) for a failed refresh, in place: the table changes only if it stores
+      if isRefresh && c.withRef then
+        let cur := durationTo x.ref now
+        let d := c.refFail x.key x.val cur
+        if d > 0 && cur != d then (store t k { x with ref := deadlineAfter now d }, []) else (t, [])
+      else (t, [])
+    | none => (t, [])
+  | .ok v =>
+    if correct then
+      let (n, evs) := atomicSet c k v old now (if isRefresh then .reload else .plain)
+      (store t k n, evs)
+    else (t, [])
 
 /-- GetIfPresent: getNode (miss for absent or expired) then the read's deadline -/
 def getIfPresent (c : TCfg) (t : Tbl) (k : Nat) (now : Int) : Tbl × Out :=
